@@ -1,6 +1,9 @@
 """C16 -- Ordering, limits, paging and counts describe the same result set.
 
-Obligations: coq/Props/C16.v (model coq/Model/Paging.v).
+Obligations: coq/Props/C16.v (model coq/Model/Paging.v; coq/Model/PagingPP.v = the generator / raw-page-loop skeleton
+       around the counter logic of Postprocessing.apply regenerated from /repo into coq/Gen/PostprocGen.v).
+Tie T: harness/translators/postproc.py (fail-closed ast walker over Postprocessing.apply, pins for the limit property,
+       _Cursor.next and _read_results); the paging theorems are stated over the generated definitions.
 Tie K: a populated real repository per worker (harness/impl/c16_impl.py); the driver's raw page size / filter factor are
        forced down through the public constructor parameters; every observation (iteration, count, any, Butler.query_*
        with negative limits and explain, constraint spellings) is compared with the Coq model by vm_compute.
@@ -14,8 +17,9 @@ import json
 import os
 from pathlib import Path
 
-from harness.common import VERIF, Ctx, cbool, clist, copt, cz, parallel_workers
+from harness.common import COQ, VERIF, Ctx, cbool, clist, copt, cz, parallel_workers
 from harness.impl import c16_impl as I
+from harness.translators import postproc
 
 DEFAULT_FACTOR = 10
 
@@ -641,6 +645,7 @@ class Judge:
 # ------------------------------------------------------------------------------------------------------------
 
 HDR = "From Coq Require Import ZArith List Bool.\nFrom V Require Import Model.Paging Model.PagingCheck.\nImport ListNotations.\nOpen Scope Z_scope.\n"
+HDR_G = HDR.replace("Model.PagingCheck.", "Model.PagingCheck Model.PagingPPCheck.")
 
 
 def run_batch(ctx: Ctx, cases, judge: Judge, label):
@@ -665,7 +670,8 @@ def run_batch(ctx: Ctx, cases, judge: Judge, label):
     return installed
 
 
-def model_check(ctx: Ctx, judge: Judge, suffix=""):
+def model_check(ctx: Ctx, judge: Judge, suffix="", generated=False):
+    bads = {}
     for name, cases, chk, meta, structural in (
         ("exec" + suffix, judge.exec_cases, "chk_exec", judge.exec_meta, False),
         ("butler" + suffix, judge.butler_cases, "chk_butler", judge.butler_meta, False),
@@ -676,6 +682,7 @@ def model_check(ctx: Ctx, judge: Judge, suffix=""):
         if not cases:
             continue
         bad = ctx.coq_cases(name, HDR, cases, chk, shard=250)
+        bads[name] = bad
         ctx.hist("model_cases", name, len(cases))
         for i in (bad or [])[:4]:
             if structural:
@@ -685,6 +692,32 @@ def model_check(ctx: Ctx, judge: Judge, suffix=""):
         if structural and bad:
             ctx.log(f"structural drift (page structure) on {len(bad)} cases: logged, not a verdict")
             ctx.cov["ties"][f"K:{name}"] = f"drift on {len(bad)} cases (structure only)"
+    if not generated:
+        return
+    # the REGENERATED Postprocessing.apply on the same observations.  By theorem postproc_refines_model it agrees with
+    # chk_exec / chk_trace on the unchanged tree; where only the generated model disagrees the translator misrenders the code.
+    for name, base, cases, chk, meta, structural in (
+        ("gexec" + suffix, "exec" + suffix, judge.exec_cases, "chk_gexec", judge.exec_meta, False),
+        ("gtrace" + suffix, "trace" + suffix, judge.trace_cases, "chk_gtrace", judge.trace_meta, True),
+    ):
+        if not cases or bads.get(base) is None:
+            continue
+        bad = ctx.coq_cases(name, HDR_G, cases, chk, shard=250)
+        if bad is None:
+            continue
+        ctx.hist("model_cases", name, len(cases))
+        only_g = sorted(set(bad) - set(bads[base]))
+        only_h = sorted(set(bads[base]) - set(bad))
+        if only_h:
+            ctx.log(f"{name}: the regenerated apply follows the implementation on {len(only_h)} cases where the hand-written model does not")
+        if structural:
+            if only_g:
+                ctx.cov["structural_drift"].append({"relation": name, "case": meta[only_g[0]], "n": len(only_g)})
+            ctx.cov["ties"][f"K:{name}"] = "ok" if not bad else f"drift on {len(bad)} cases (structure only)"
+        else:
+            for i in only_g[:4]:
+                ctx.disagreement(name, meta[i], "regenerated Postprocessing.apply and implementation differ (translator does not render the code)")
+            ctx.cov["ties"][f"K:{name}"] = "ok" if not bad else f"{len(bad)} disagreements ({len(only_g)} not shared with the hand-written model)"
 
 
 def run(ctx: Ctx):
@@ -703,7 +736,10 @@ def run(ctx: Ctx):
         "an observation (query, raw page size, filter factor, limit) is non-trivial when the unlimited SQL result spans at least "
         "two raw pages and the limit is None or strictly between 0 and the result size; a spelling case when it selects at least one row"
     )
-    ctx.build_props(extra_targets=["Model/PagingCheck.vo"])
+    # tie T: the counter logic of Postprocessing.apply, regenerated; the paging theorems are stated over it
+    gen_ok = ctx.regen("postproc", postproc.translate)
+    ctx.build_props(extra_targets=["Model/PagingCheck.vo", "Model/PagingPPCheck.vo"])
+    gen_ok = gen_ok and (COQ / "Model" / "PagingPPCheck.vo").exists()
     judge = Judge(ctx)
     # regression corpus first
     corpus = []
@@ -725,7 +761,7 @@ def run(ctx: Ctx):
             ctx.cov["structural_drift"].append({"instrumentation": installed})
             if not installed.get("driver_init"):
                 ctx.tie_broken("correspondence", "page-size", "could not force the driver's raw page size (constructor parameters changed)")
-    model_check(ctx, judge)
+    model_check(ctx, judge, generated=gen_ok)
     if ctx.broken and not ctx.oracle_failures and ctx.quick and not ctx.replay:
         # something no longer checks but the oracle held: deeper search on the implementation
         ctx.log("broken obligation/tie without oracle failure: running the thorough-size search")
